@@ -224,7 +224,7 @@ def r02h(ctx, rep, rule="R02h"):
         excl = {b for b in f.reachable() if f.dominates(tru, b)} if len([p for p in f.pred[tru] if p in f.reachable()]) == 1 else set()
         skips = [b2 for b2, t2 in f.calls() if b2 in excl and callee(t2) == "marwood::cell::Cell::cdr"
                  and shapes.shape(f, t2["args"][0]) == "a1.1"]
-        inserts = [b2 for b2, t2 in f.calls() if b2 in excl and (callee(t2) or "").endswith("HashSet::<T, S, A>::insert")
+        inserts = [b2 for b2, t2 in f.calls() if b2 in excl and ((callee(t2) or "").endswith("HashSet::<T, S, A>::insert") or re.search(r"HashSet<.*> as std::iter::Extend<.*>>::extend$", callee(t2) or ""))
                    and shapes.shape(f, t2["args"][0]) == "a2"]
         if not skips:
             rep.ok(rule, key, "the `%s` arm skips no operand" % kw, [f.span], nontrivial=False)
